@@ -6,8 +6,9 @@ import GmqttVerif.Model.Codec.Prim
     `p0 & mask2` = `p0 % 32`, `p0 & mask3` = `p0 % 16`, `p0 & mask4` = `p0 % 8`, `b & maskx` = `b % 64`,
     `x << 6 | y` = `x * 64 + y` for `y < 64`.
 
-  FIXED CODE is modelled (finding F22): the Go tree tests `ru == utf8.RuneError` without `size == 1`
-  and therefore rejects a correctly encoded U+FFFD (EF BF BD). `Orig.validUTF8` keeps the code as found.
+  Finding F22 (fixed in /repo by 4c8d3ed): the tree used to test `ru == utf8.RuneError` without `size == 1`
+  and therefore rejected a correctly encoded U+FFFD (EF BF BD). The model mirrors the repaired code;
+  `Orig.validUTF8` keeps the code as it was found.
 -/
 namespace GmqttVerif.Codec
 
